@@ -30,7 +30,7 @@ RULE = (
     "(a) 11 function kinds x all parameter lists of 0..2 parameters (functions: 0..3; thorough one more each) x 4 exit kinds "
     "x call styles {all args, defaults used, by keyword} + nesting/recursion/propagation/yield-from/property/lambda scenarios "
     "+ twin modules in both call orders, for k in {0,3}; (b) BFS over all sequences of driver operations {next, send, "
-    "throw, close, drop} on every single and every ordered pair of 8 generator/coroutine templates to depth 6 (thorough 8); "
+    "throw, close, drop} on every single and every ordered pair of 10 generator/coroutine templates (incl. a types.coroutine generator and an async def awaiting it) to depth 6 (thorough 8); "
     "state = per-instance position + CallTracer.traces + cache + log length; transition = one driver operation judged "
     "against sys.monitoring ground truth; non-trivial = operation that completed or suspended a traced frame"
 )
@@ -320,6 +320,21 @@ def part_nesting(ctx: Ctx) -> Result:
 # ------------------------------------------------------------------------------------------ (b) live-frame protocols
 
 PROTO_SRC = '''
+import types
+
+
+@types.coroutine
+def tc_yield(a):
+    r = yield a
+    r2 = yield [a]
+    return (r, r2)
+
+
+async def c_over_tc(a):
+    r = await tc_yield(a)
+    return r
+
+
 class Susp:
     def __await__(self):
         r = yield "suspended"
@@ -369,7 +384,7 @@ async def c_await(a):
     return [r, r2]
 '''
 
-TEMPLATES = [("g_plain", "2"), ("g_rebind", "5"), ("g_finally", "'f'"), ("g_except", "1"), ("g_from", "0"), ("g_raise", "'k'"), ("g_send", "None"), ("c_await", "1")]
+TEMPLATES = [("g_plain", "2"), ("g_rebind", "5"), ("g_finally", "'f'"), ("g_except", "1"), ("g_from", "0"), ("g_raise", "'k'"), ("g_send", "None"), ("c_await", "1"), ("tc_yield", "1"), ("c_over_tc", "2")]
 OPS = ["next", "send", "throw", "close", "drop"]
 
 
